@@ -28,6 +28,9 @@ type State struct {
 	// an unknown call that can reach everything (empty interface, closure) was made: every Go
 	// heap not in use yet is arbitrary from then on
 	lazyAll bool
+	// path conditions of the branch states merged into this one (most recent join; at most 4): the current
+	// pc implies their disjunction, so an obligation may be proved under each of them separately
+	cases []*Term
 }
 
 const lazyAllName = "$lazyAll"
@@ -58,6 +61,7 @@ func (s *State) clone() *State {
 		n.ghost[k] = v
 	}
 	n.lazyAll = s.lazyAll
+	n.cases = s.cases
 	if len(s.lazy) > 0 {
 		n.lazy = make(map[string]bool, len(s.lazy))
 		for k := range s.lazy {
@@ -313,6 +317,21 @@ func (c *Ctx) mergeStates(a, b *State) *State {
 	d := a.pc
 	out := a.clone()
 	out.pc = c.define("pc", Or(a.pc, b.pc))
+	// remember what was joined (a join of joins keeps the leaves while they are few)
+	leaves := func(s *State) []*Term {
+		if len(s.cases) > 1 {
+			var r []*Term
+			for _, cs := range s.cases {
+				r = append(r, And(s.pc, cs))
+			}
+			return r
+		}
+		return []*Term{s.pc}
+	}
+	out.cases = append(append([]*Term{}, leaves(a)...), leaves(b)...)
+	if len(out.cases) > 4 {
+		out.cases = []*Term{a.pc, b.pc}
+	}
 	// deterministic order (declaration position, then name): the symbol numbering of the
 	// generated query must not depend on map iteration order, or solver behaviour varies run to run
 	vkeys := make([]types.Object, 0, len(a.vars))
